@@ -18,7 +18,12 @@ RULE = ('per object kind and request an exhaustive value grid (all in-range valu
         'frame_size_select grid; random settings fixed before the first frame (plus a mid-stream FORCE_CHANNELS change) -> '
         'TOC of every packet, through all three entry points (opus_encode / opus_encode24 / opus_encode_float) and with more '
         'samples supplied than a fixed frame duration needs; histories that re-select the application after OPUS_RESET_STATE (suite ctl-reapp); a '
-        'deterministic corpus case (forced mono during a SILK-DTX run). S4 evaluates reject-unchanged / read-back / '
+        'deterministic corpus case (forced mono during a SILK-DTX run); silk_control_audio_bandwidth called directly on '
+        'random states and control inputs (return value, sLP.mode, sLP.transition_frame_no, switchReady compared), and, '
+        'through ld --wrap, every call it receives inside SILK-heavy real encoder histories (bandwidth limits moved '
+        'mid-stream, quiet stretches, tiny budgets, prefill, reset, stereo): per call the same four outputs, the control '
+        'inputs against opusSilkIn of the encoder\'s mode/bandwidth, and channel 0\'s state between calls against the '
+        'modelled gaps. S4 evaluates reject-unchanged / read-back / '
         'documented-legality / create predicates AND the honour predicates (duration, MDCT-only, channels, bandwidth) on '
         'every packet of every history against the settings the implementation itself reported before the call. '
         'A case is distinct by (suite, op, outcome kind)')
@@ -93,7 +98,7 @@ LEVEL_NOTE = ('trusted: Lean kernel; harness + line protocol; DSP-dependent deci
               'not a theorem); two read-back deviations are recorded known findings (GET_BANDWIDTH, multistream GET_BITRATE)')
 TECHNIQUE = 'Lean 4 theorems over an executable ctl/decision-chain model + differential correspondence + witness search'
 
-_EXTRA = ['-Wl,--wrap=malloc', '-Wl,--wrap=free']
+_EXTRA = ['-Wl,--wrap=malloc', '-Wl,--wrap=free', '-Wl,--wrap=silk_control_audio_bandwidth']
 _ENV = {'ASAN_OPTIONS': 'detect_leaks=1:abort_on_error=0', 'UBSAN_OPTIONS': 'print_stacktrace=1'}
 
 ENC_GET = [4001, 4003, 4023, 4005, 4009, 4017, 4011, 4013, 4015, 4007, 11019, 4021, 4025, 4027, 4029, 4031, 4037, 4041,
@@ -127,6 +132,9 @@ def ties(ctx):
     out.append(common.run_tie('ctl-msstarve', [h, 'msstarve', str(ctx.seed), '1500' if q else '25000'], env=_ENV))
     out.append(common.run_tie('ctl-reapp', [h, 'reapp', str(ctx.seed), '1500' if q else '20000'], env=_ENV))
     out.append(common.run_tie('ctl-honour', [h, 'honour', str(ctx.seed), '6000' if q else '80000'], env=_ENV))
+    # SILK's internal rate: silk_control_audio_bandwidth called directly, and every call made inside real encoder histories
+    out.append(common.run_tie('ctl-silkbw', [h, 'silkbw', str(ctx.seed), '20000' if q else '400000'], env=_ENV))
+    out.append(common.run_tie('ctl-silkbw-enc', [h, 'silkenc', str(ctx.seed), '300' if q else '5000'], env=_ENV))
     return out
 
 
@@ -450,8 +458,32 @@ def _shrink(ctx, v):
     return (best[0], best[1], best[2], best[3], best[4] + ' [history shrunk to %d ops]' % len(ops))
 
 
+def _silkbw_violation(tie, inp, impl, model):
+    """silk_rate_inv evaluated on the implementation's own answer: inside the documented input ranges (BwInv, BwInOk,
+    min <= API rate) the returned rate is 8/12/16 kHz and within [minInternalSampleRate, maxInternalSampleRate]."""
+    tok = inp.split()
+    if len(tok) >= 12 and tok[1] == 'silkbw':
+        try:
+            fs, sv, md, tf, api, des, mx, mn, al, cn = [int(x) for x in tok[2:12]]
+            ret = int(impl.split()[0])
+        except (ValueError, IndexError):
+            return None
+        sane = (fs in (0, 8, 12, 16) and sv in (0, 8, 12, 16) and md in (-2, 0, 1) and 0 <= tf <= 256 and
+                all(x in (8000, 12000, 16000) for x in (des, mx, mn)) and mn <= des <= mx and mn <= api)
+        if sane and not (ret in (8, 12, 16) and mn <= ret * 1000 <= mx):
+            return {'suite': tie.name, 'input': inp, 'expected': 'a rate in {8,12,16} kHz within [%d,%d] Hz' % (mn, mx),
+                    'observed': impl, 'why': 'silk_control_audio_bandwidth returns an internal rate outside the requested '
+                    '[minInternalSampleRate, maxInternalSampleRate] (silk_rate_inv)'}
+    if len(tok) >= 3 and tok[1] == 'silkbwseq' and 'outside' in model:
+        return {'suite': tie.name, 'input': inp[:4000], 'expected': 'every rate within [min,max] and <= API rate', 'observed': model,
+                'why': 'inside a real encoder history SILK chose an internal rate outside what Opus asked for: ' + model}
+    return None
+
+
 def classify(ctx, tie, mm):
     inp, impl, model = mm.get('input', ''), mm.get('impl', ''), mm.get('model', '')
+    if tie.name.startswith('ctl-silkbw'):
+        return _silkbw_violation(tie, inp, impl, model)
     if tie.name.startswith('ctl-honour'):
         # the model side of this suite IS the property predicate evaluated on the implementation's packets
         if model.startswith('VIOLATES'):
